@@ -17,7 +17,11 @@ KEY = {'refA_1': 'err.py::errcheck', 'refA_2': 'ErrorProfile.state', 'refA_3': '
        'refC_1': 'TableValidator._validate_json', 'refC_2': 'TableValidator._valid_sparse_data',
        'refC_3': 'TableValidator._valid_dense_data', 'refC_4': 'TableValidator._valid_rows', 'refC_5': 'TableValidator._valid_shape',
        'refC_6': 'TableValidator._valid_data', 'refC_7': 'table.py::Table.__eq__', 'refC_8': 'table.py::Table.descriptive_equality',
-       'refC_9': 'table.py::Table.metadata', 'refC_10': 'table.py::Table.get_value_by_ids'}
+       'refC_9': 'table.py::Table.metadata', 'refC_10': 'table.py::Table.get_value_by_ids',
+       'refD_1': 'table.py::Table.__init__', 'refD_2': 'table.py::Table.add_metadata', 'refD_3': 'table.py::Table.del_metadata',
+       'refD_4': 'table.py::Table.nonzero_counts', 'refD_5': 'table.py::Table.min', 'refD_6': 'table.py::Table.max',
+       'refD_7': 'table.py::Table.data', 'refD_8': 'table.py::Table.copy', 'refD_9': 'Table._union_id_order',
+       'refD_10': 'Table._intersect_id_order', 'refD_11': 'table.py::Table.pa', 'refD_12': 'compute_counts_per_sample_stats'}
 
 
 def one(name):
